@@ -269,25 +269,27 @@ impl<'a> Reader for ProtobufReader<'a> {
         match self.next_tag_range::<true>() {
             None => Err(Error::MissingRequiredField(C::NAME)),
             Some(range) => {
-                let (format, range, tag) = {
-                    let reader = &mut &self.source[range.clone()];
-                    let len_before = reader.len();
-                    let (tag, format) = reader.read_tag()?;
-                    if format == Format::LengthDelimited {
-                        let _len = reader.read_varint()?;
-                    }
-                    let len_after = reader.len();
-                    let read = len_before - len_after;
-                    (format, range.start + read..range.end, tag)
+                // the field number of the first field selects the alternative, further fields with
+                // the same number belong to it as well (elements of a list)
+                let (tag, format, tags) = match self.index_enclosed(range)? {
+                    State::Enclosed { tags, .. } => match tags.front() {
+                        None => return Err(Error::MissingRequiredField(C::NAME)),
+                        Some((tag, format, _range)) => {
+                            let (tag, format) = (*tag, *format);
+                            let tags = tags
+                                .into_iter()
+                                .filter(|(t, _format, _range)| *t == tag)
+                                .map(|(_tag, format, range)| (1u32, format, range))
+                                .collect::<VecDeque<_>>();
+                            (tag, format, tags)
+                        }
+                    },
+                    State::Root { .. } => unreachable!(),
                 };
 
                 let mut state = State::Enclosed {
                     tag_counter: 1,
-                    tags: {
-                        let mut v = VecDeque::with_capacity(1);
-                        v.push_back((1u32, format, range));
-                        v
-                    },
+                    tags,
                 };
                 core::mem::swap(&mut self.state, &mut state);
                 let result = C::read_content(u64::from(tag.saturating_sub(1)), self);
@@ -295,7 +297,7 @@ impl<'a> Reader for ProtobufReader<'a> {
 
                 match result {
                     Err(e) => Err(e),
-                    Ok(None) => Err(Error::unexpected_tag((tag, Format::LengthDelimited))),
+                    Ok(None) => Err(Error::unexpected_tag((tag, format))),
                     Ok(Some(v)) => Ok(v),
                 }
             }
